@@ -608,13 +608,15 @@ class Kernel(object):
         d = os.fspath(dir) if dir is not None else (self.systmp or _tempfile.gettempdir())
         prefix = 'tmp' if prefix is None else prefix
         suffix = '' if suffix is None else suffix
+        # the seam event (and any injected I/O error) comes BEFORE the directory exists:
+        # a real mkdtemp that fails leaves nothing behind
+        self.io_event('mkdtemp', os.path.join(d, prefix + '*' + suffix), 'w')
         for _ in range(10000):
             p = os.path.join(d, prefix + self._name() + suffix)
             try:
                 os.mkdir(p, 0o700)
             except FileExistsError:
                 continue
-            self.io_event('mkdtemp', p, 'w')
             return os.path.abspath(p)
         raise FileExistsError(errno.EEXIST, 'no usable temporary directory name')
 
@@ -622,13 +624,13 @@ class Kernel(object):
         d = os.fspath(dir) if dir is not None else (self.systmp or _tempfile.gettempdir())
         prefix = 'tmp' if prefix is None else prefix
         suffix = '' if suffix is None else suffix
+        self.io_event('mkstemp', os.path.join(d, prefix + '*' + suffix), 'w')
         for _ in range(10000):
             p = os.path.join(d, prefix + self._name() + suffix)
             try:
                 fd = os.open(p, os.O_RDWR | os.O_CREAT | os.O_EXCL, 0o600)
             except FileExistsError:
                 continue
-            self.io_event('mkstemp', p, 'w')
             return fd, os.path.abspath(p)
         raise FileExistsError(errno.EEXIST, 'no usable temporary file name')
 
